@@ -21,6 +21,17 @@ fn dim_text(tok: u64) -> String {
     }
 }
 
+/// the same data token for an array of `()` cells: `null` per element
+fn data_text_unit(d: &Value) -> String {
+    if d["t"] == "notarr" {
+        return "7".into();
+    }
+    let n = d["n"].as_u64().unwrap();
+    let bad = d["bad"].as_u64().unwrap();
+    let items: Vec<String> = (1..=n).map(|i| if i == bad { "\"x\"".to_string() } else { "null".to_string() }).collect();
+    format!("[{}]", items.join(","))
+}
+
 fn data_text(d: &Value) -> String {
     if d["t"] == "notarr" {
         return "7".into();
@@ -281,6 +292,31 @@ fn run_doc(case: &Value) -> Vec<Fail> {
             for (pn, prior) in in_place_priors() {
                 transports.push((format!("in_place[{pn}]"), observe_in_place(&text, prior)));
             }
+        }
+        if !escaped && doc["top"] == "object" {
+            // the same document for an array of zero-sized cells (`()`): element-size-dependent checks in the visitor
+            let unit_text = text.clone();
+            let fields: Vec<String> = doc["fields"].as_array().unwrap().iter().map(|f| {
+                let k = f["key"].as_str().unwrap();
+                let v = match k {
+                    "num_cols" | "num_rows" => dim_text(f["val"].as_u64().unwrap()),
+                    "data" => data_text_unit(&f["val"]),
+                    _ => "7".to_string(),
+                };
+                if k == "extra" { format!("{}:{}", serde_json::to_string(&unknown_key(variant)).unwrap(), v) } else { format!("\"{k}\":{v}") }
+            }).collect();
+            let _ = unit_text;
+            let utext = format!("{{{}}}", fields.join(","));
+            let r = guarded(|| serde_json::from_str::<TooDee<()>>(&utext));
+            transports.push(("from_str::<()>".into(), match r {
+                Err(()) => DeOut::Panic,
+                Ok(Err(e)) => DeOut::Err(e.to_string()),
+                Ok(Ok(t)) => {
+                    let (nc, nr) = (t.num_cols(), t.num_rows());
+                    let shape_ok = nc.checked_mul(nr) == Some(t.data().len()) && ((nc == 0) == (nr == 0));
+                    DeOut::Ok(nc, nr, (1..=t.data().len() as u32).collect(), shape_ok)
+                }
+            }));
         }
         if !escaped && doc["top"] == "object" {
             // the array as a flattened part of a larger record: the outer visitor hands our visitor a buffered map and
